@@ -22,6 +22,8 @@ CONSTANTS
   Bins <- MCBins
   Data <- MCData
   Sig <- MCSig
+  MoreObs <- MCMoreObs
+  BinnerRule = "at_set"
   ChemSet <- MCChem
   ChemLimit = 50
   TLow = 1
